@@ -1364,7 +1364,16 @@ func (e *FnEnc) mapGet(m string, mt *types.Map, key string) (Val, string) {
 	for i, l := range e.sorter.leaves(mt.Elem()) {
 		vn, vs := e.mapValArr(mt, l)
 		a := e.heapArr(vn, vs)
-		v.L = append(v.L, site(has, "(select (select "+a+" "+m+") "+key+")", z.L[i]))
+		// a named function instead of a bare `ite`: z3 refuses patterns that contain `ite`, and quantified
+		// contract clauses over m[k] need such patterns (mget(val, dom, m, k) = dom[m][k] ? val[m][k] : zero)
+		ks := e.mapKeySort(mt)
+		fname := "mget_" + strings.NewReplacer("(", "", ")", "", " ", "_").Replace(l.sort+"_"+ks) + "_" + sanitize(z.L[i])
+		f := e.uf(fname, []string{vs, ds, "Int", ks}, l.sort)
+		if !e.ufs[fname+"_ax"] {
+			e.ufs[fname+"_ax"] = true
+			e.specDefs = append(e.specDefs, fmt.Sprintf("(assert (forall ((v %s) (d %s) (m Int) (k %s)) (! (= (%s v d m k) (ite (select (select d m) k) (select (select v m) k) %s)) :pattern ((%s v d m k)))))", vs, ds, ks, f, z.L[i], f))
+		}
+		v.L = append(v.L, fmt.Sprintf("(%s %s %s %s %s)", f, a, dom, m, key))
 	}
 	return v, has
 }
